@@ -129,7 +129,10 @@ GenCases == {c \in ({[fam |-> "gen", form |-> fo, n |-> n, sh |-> sh] : fo \in F
 \* ---- identifiers whose lower case has another encoded length, keywords and odd names in every name position ----
 Idents == [ stroke |-> <<570, 570, 570, 570>>, doti |-> <<304, 304, 304>>, kelvin |-> <<8490, 8490>>, sharp |-> <<7838, 97>>, acute |-> <<233, 233>>,
             kwin |-> <<105, 110>>, kwif |-> <<105, 102>>, kwwith |-> <<119, 105, 116, 104>>, kwas |-> <<97, 115>>, digit |-> <<49, 97>>, dash |-> <<97, 45, 98>>,
-            long |-> [i \in 1..300 |-> 97 + (i % 26)], empty |-> <<>>, upper |-> <<73, 78>>, cjk |-> <<20013, 25991>>, astral |-> <<128512, 120>> ]
+            long |-> [i \in 1..300 |-> 97 + (i % 26)], empty |-> <<>>, upper |-> <<73, 78>>, cjk |-> <<20013, 25991>>, astral |-> <<128512, 120>>,
+            \* (as names and inside string literals) backslashes, quotes, line breaks, delimiters
+            bs |-> <<92>>, absl |-> <<97, 92>>, bsq |-> <<92, 34>>, bsbs |-> <<92, 92>>, bsn |-> <<92, 110, 92>>, nl |-> <<97, 10, 98>>, open |-> <<123, 123>>,
+            close |-> <<37, 125>>, sq |-> <<39>>, dq |-> <<34>>, nul |-> <<97, 0, 98>>, nosuch |-> <<110, 111, 115, 117, 99, 104>>, known |-> <<116, 49>> ]
 \* %I marks the identifier slot
 IdentForms == [ forv |-> "{% for %I in x %}{{ %I }}{% endfor %}", forkv |-> "{% for k, %I in x %}{{ %I }}{% endfor %}", forseq |-> "{% for i in %I %}a{% endfor %}",
                 setv |-> "{% set %I = 1 %}{{ %I }}", inc |-> "{% include %I %}", incwith |-> "{% include %I with x %}", incwithv |-> "{% include 't1' with %I %}",
@@ -137,7 +140,14 @@ IdentForms == [ forv |-> "{% for %I in x %}{{ %I }}{% endfor %}", forkv |-> "{% 
                 fromi |-> "{% from %I import %I %}", fromas |-> "{% from 't1' import m as %I %}", mac |-> "{% macro %I(%I) %}{{ %I }}{% endmacro %}",
                 blk |-> "{% block %I %}b{% endblock %}", pr |-> "{{ %I }}", attr |-> "{{ x.%I }}", filt |-> "{{ x|%I }}", fn |-> "{{ %I(1) }}",
                 tst |-> "{% if x is %I %}a{% endif %}", app |-> "{% apply %I %}a{% endapply %}", str |-> "{{ '%I' ~ \"%I\" }}", hashk |-> "{{ {%I: 1}|length }}",
-                named |-> "{{ max(%I=1) }}", ifin |-> "{% if %I in x %}a{% endif %}", tern |-> "{{ %I ? %I : %I }}" ]
+                named |-> "{{ max(%I=1) }}", ifin |-> "{% if %I in x %}a{% endif %}", tern |-> "{{ %I ? %I : %I }}",
+                \* the slot inside a quoted operand
+                incdq |-> "{% include \"%I\" %}", incsq |-> "{% include '%I' %}", extdq |-> "{% extends \"%I\" %}", impdq |-> "{% import \"%I\" as m %}",
+                frmdq |-> "{% from \"%I\" import m %}", incdqw |-> "{% include \"%I\" with x %}", incign |-> "{% include '%I' ignore missing %}",
+                strdq |-> "{{ \"%I\" }}", strsq |-> "{{ '%I'|upper }}", strcat |-> "{{ 'a' ~ \"%I\" ~ 'b' }}", hashs |-> "{{ {'%I': '%I'}|length }}",
+                \* a name that is looked up in an existing library
+                fromi2 |-> "{% from 't1' import %I %}{{ 1 }}", fromi3 |-> "{% from 't1' import m, %I %}", impcall |-> "{% import 't1' as L %}{{ L.%I() }}",
+                selfcall |-> "{{ _self.%I() }}", blockfn |-> "{{ block('%I') }}", incsbx |-> "{% include '%I' sandboxed %}" ]
 IdentCases == {[fam |-> "ident", f |-> f, id |-> id] : f \in DOMAIN IdentForms, id \in DOMAIN Idents}
 
 \* ---- corruptions of compiled-template encodings -----------------------------------------------------
